@@ -117,7 +117,8 @@ spec("C07", "Parsing faithful to Python's view",
 
 spec("C08", "Fixed point after one pass",
      [TB.rule_table_announce, scoped(FA.rule_falsy, "falsy_defaults", "defaults_utils.set_default_doc", "defaults_utils.extract_default", "emitter_utils.interpolate_defaults"),
-      det3("all", "emit.docstring", "emit.class_", "emit.function", "emit.argparse_function", "parse.docstring", "parse.class_", "parse.function", "parse.argparse_ast")],
+      det3("all", "emit.docstring", "emit.class_", "emit.function", "emit.argparse_function", "parse.docstring", "parse.class_", "parse.function", "parse.argparse_ast"),
+      C.rule_call_dispatch],
      "Necessary condition: (TABLE-announce b) each writer of the default sentence recognises its own sentence as 'already present' - either by calling the reader "
      "itself or by a substring of the written phrase - otherwise one more sentence is appended on every pass.",
      floors={"TABLE-announce": 3},
@@ -135,7 +136,7 @@ spec("C09", "sync makes targets agree",
      not_decided="that the parsed targets equal the truth IR (values); method target absent from the file (a bare function is appended)")
 
 spec("C10", "sync idempotent / truth untouched / truthful report",
-     [F.rule_file0, F.rule_file1_truth, F.rule_file1b, F.rule_file2, F.rule_file2b, det3("sync", "conformance.ground_truth")],
+     [F.rule_file0, F.rule_file1_truth, F.rule_file1b, F.rule_file2, F.rule_file2b, C.rule_call_dispatch, det3("sync", "conformance.ground_truth")],
      "Necessary conditions: (FILE-1) every call from the sync worker that can reach a write sink is guarded by a comparison of the target filename with the truth file; "
      "(FILE-2) on every enumerated path of _conform_filename the returned and printed changed-flag is true iff a write lies on the path; (FILE-2b) the in-place rewrite is "
      "control-dependent on an AST-inequality test.",
